@@ -164,6 +164,24 @@ tasks:
     vars: {SV: {sh: 'printf sv'}}
     cmds: ["printf 'shared {{.SV}}\n'"]
 `}, calls: []string{"r1", "r2", "r3", "r4"}, lines: 4})
+	// a deduplicated task is executing for one caller, a second caller waits for it, and an unrelated sibling fails
+	// and cancels the group (and the same with the deduplicated task itself failing while two callers wait)
+	for _, mode := range []string{"once", "when_changed"} {
+		spin := func(n int) string { return fmt.Sprintf("i=0; while [ $i -lt %d ]; do i=$((i+1)); done", n) }
+		for _, v := range []struct{ name, sharedTail, failer string }{
+			{"sibling-fails", "printf 'shared\\n'", spin(1500) + "; exit 1"},
+			{"shared-fails", "exit 3", spin(200000) + "; printf 'late\\n'"},
+		} {
+			tf := hdr + "tasks:\n  all:\n    deps: [a, b, c, failer]\n" +
+				"  a:\n    deps: [shared]\n    cmds: [\"printf 'a\\n'\"]\n" +
+				"  b:\n    cmds:\n      - task: shared\n      - printf 'b\\n'\n" +
+				"  c:\n    deps: [shared]\n    cmds: [\"printf 'c\\n'\"]\n" +
+				"  failer:\n    cmds:\n      - " + yamlQ(v.failer) + "\n" +
+				"  shared:\n    run: " + mode + "\n    cmds:\n      - defer: printf 'shared-defer\\n'\n      - " + yamlQ(spin(20000)+"; "+v.sharedTail) + "\n"
+			ws = append(ws, workload{name: "dedup-waiters-" + v.name + "-" + mode, files: map[string]string{"Taskfile.yml": tf}, calls: []string{"all"}})
+			ws = append(ws, workload{name: "dedup-waiters-" + v.name + "-" + mode + "-C2", files: map[string]string{"Taskfile.yml": tf}, calls: []string{"all"}, conc: 2})
+		}
+	}
 	// prefixed output with colour on: many distinct prefixes printing at the same moment, through external programs
 	// (their output arrives on the copy goroutines of os/exec) and through builtins
 	{
@@ -327,6 +345,8 @@ tasks:
 `}, calls: []string{"all"}, lines: 4})
 	return ws
 }
+
+func yamlQ(s string) string { return "'" + strings.ReplaceAll(s, "'", "''") + "'" }
 
 func spinHandler(rng *rand.Rand) func(point, detail string) {
 	var mu sync.Mutex
